@@ -236,6 +236,21 @@ def make_histories(n, texts, rules, stream):
     return out
 
 
+# pairs of modules in which an unchanged piece of text means something else because of what stands around it: a verdict remembered from the
+# first module (a function judged free of effects, a name judged safe to call) is wrong for the second one
+SIBLING_PAIRS = [
+    ("def emit(x):\n    return x\n\n\ndef relay(x):\n    return emit(x)\n\n\nrelay(1)\nprint(relay(2))\n",
+     "def emit(x):\n    print('emit', x)\n    return x\n\n\ndef relay(x):\n    return emit(x)\n\n\nrelay(1)\nprint(relay(2))\n"),
+    ("def notify(x):\n    return x\n\n\nnotify(1)\nprint(2)\n", "from somewhere import notify\n\nnotify(1)\nprint(2)\n"),
+    ("class Registry:\n    pass\n\n\nRegistry()\nprint(1)\n", "from plugins import Registry\n\nRegistry()\nprint(1)\n"),
+    ("def helper():\n    return 1\n\n\ndef main():\n    helper()\n    return 2\n\n\nprint(main())\n",
+     "def main():\n    helper()\n    return 2\n\n\nfrom effects import helper\nprint(main())\n"),
+    ("import os\n\n\ndef f(x):\n    return os.sep + x\n\n\nprint(f('a'))\n", "os = None\n\n\ndef f(x):\n    return os.sep + x\n\n\nprint(f)\n"),
+    ("x = 1\nif x == 1:\n    print('one')\n", "x = 1.0\nif x == 1:\n    print('one')\n"),
+    ("print(str(1), hex(1), repr(1), [1] * 1)\nif str(1) == '1':\n    print('a')\n", "print(str(True), repr(1.0), [True] * True)\nif str(True) == '1':\n    print('a')\nif str(1.0) == '1':\n    print('b')\n"),
+]
+
+
 def sibling(text, r):
     """(text, variant): the same module with one function made effectful, made trivial or removed, everything else verbatim. Whatever the tool
     remembers about the unchanged definitions (a memo keyed on part of the program, a set that grows) is wrong for one of the two."""
@@ -326,6 +341,11 @@ def main() -> int:
         made += 1
         if made >= (150 if thorough else 45):
             break
+    for a, b in SIBLING_PAIRS:
+        for first, second in ((a, b), (b, a)):
+            for opts in ({}, {"safe": True}):
+                k += 1
+                hist.append({"id": f"siblingpair{k}", "history": [{"kind": "format", "text": first, "options": opts}], "request": {"kind": "format", "text": second, "options": opts}})
     tot_h, tot_t = {}, {}
     with pool.Pool() as p, pool.Pool(oneshot=True) as fresh:
         verdict.run_witnesses(v, p)
